@@ -358,7 +358,21 @@ def execute_plan(plan: dict, kdf_limit: int = 300, keep_events: bool = False) ->
                         async def main():
                             lp = asyncio.get_running_loop()
                             tasks = [lp.create_task(one(ot, mk), name=f"op{ot.idx}") for ot, mk in prepared]
-                            await asyncio.gather(*tasks)
+                            for (ot, _mk), task in zip(prepared, tasks):
+                                if ot.op.get("cancel_after_us") is not None:
+                                    # the caller gives up on this call (its own timeout) while the others go on
+                                    def cancel(task=task, ot=ot):
+                                        if not task.done():
+                                            world.stats["cancel"] += 1
+                                            world.log("op.cancel", ot.idx)
+                                            task.cancel()
+
+                                    lp.call_later(ot.op["cancel_after_us"] / 1e6, cancel)
+                            await asyncio.gather(*tasks, return_exceptions=True)
+                            for (ot, _mk), task in zip(prepared, tasks):
+                                if task.cancelled() and ot.outcome is None:
+                                    ot.outcome = drive.Outcome("cancelled")
+                                    ot.return_seq = world.seq
 
                         world.entropy.op = "group%d" % i
                         whole = drive.classify(lambda: drive.run_async(world, main, random.Random(sched_rng.getrandbits(32)), lat))
